@@ -3,6 +3,10 @@
 import json
 props=[json.loads(l) for l in open('/verif/properties.jsonl')]
 CLAIMED = {
+ 'C19': ("closure.DebugCompile against closure.Compile on 24 single-line sources (ASCII and non-ASCII identifiers and strings, lazy branches, failing sub-terms, redundant spaces) x 72 value combinations: same value or failure; the record (read through a verif-tagged accessor) is exactly the reference walker's sequence of (value, column) for the variable / call / member / subscript terms actually evaluated; Render never fails, keeps the source as first line and shows every recorded value",
+         "values are concrete (selector-chosen), so this check is path exploration of the real code without solver-decided scalars; multi-line renderings are not exercised"),
+ 'C20': ("every AND/OR/NOT criteria tree to depth 2 over three leaf kinds, and every condition kind (= <> > >= < <=, IN, BETWEEN, LIKE, IS NULL, column-vs-column, times) with hostile string operands (quotes, backslashes, control bytes, non-ASCII, invalid UTF-8, SQL comment text), boundary numbers and bound/unbound names in three contexts: the generated text, read back by an independent reader with standard SQL precedence and backslash-escaped literals, is the criteria tree (up to AND/AND, OR/OR flattening); each string operand is exactly one literal",
+         "operand strings come from a pool of 11 hostile strings (not symbolic bytes); depth 2 (quick) / 3 (thorough)"),
  'C15': ("conv.ValOf / TypeOf / TypeEnvOf / ValEnvOf executed from the real SSA over a reflect model built on the engine's typed heap: scalars of every width (symbolic contents) convert to the number/string/bool they hold under their tag names; optional markers, nil and non-nil pointers/slices/maps, times, nested structs, pointers to pointers, arrays, maps with primitive keys; the type is the same for every value of the Go type and equals the reported type; twelve unsupported / inconsistent / boundary inputs give an error or are accepted as stated; environments from two samples of one Go type conform",
          "a fixed catalogue of 4 struct types + containers; slice/map sizes <= 2; reflect itself is modelled (25 functions, DESIGN.md §2.6), validated only by native replay of counterexamples; the depth limit of 100 is not exercised"),
  'C11': ("operand kernels (8/16-bit emit/read, placeholder patching, constant addressing) decided for every non-negative integer: round trip or refusal exactly beyond the width; an independent verifier (complete decode, operand kinds and ranges, argc = arity, call convention = callee laziness, forward in-range jump targets on instruction boundaries, path-independent non-negative stack depth, 1 at return, recursively for deferred-argument bodies) accepts the bytecode of 99 template programs and of wide/deep programs around the 42-slot, 255 and 65535 boundaries",
